@@ -97,8 +97,10 @@ def tag_loop(ctx, rule):
     repo = ctx.repo
     pf = repo.func("gaftools.gaf", "GAF.parse_gaf_line", rule)
     ctx.analysed_func(pf)
+    from ..core import plain_statements
+
     cands = []
-    for f in [pf] + [h for c in walk_own(pf.node) if isinstance(c, ast.Call) for h in [repo.resolve_call(pf, c)] if h is not None and h.module is pf.module and h is not pf]:
+    for f in [plain_statements(pf)] + [plain_statements(h) for c in walk_own(pf.node) if isinstance(c, ast.Call) for h in [repo.resolve_call(pf, c)] if h is not None and h.module is pf.module and h is not pf]:
         for n in f.node.body:
             if isinstance(n, ast.For) and any(_is_regex_call(c, f.module) for c in ast.walk(n)):
                 cands.append((f, n))
